@@ -139,19 +139,8 @@ def parse_impl(out):
     return schemas
 
 
-def words_sorted_in_source():
-    """does the working tree's TableTranslator sort the iterator LookupWords filled before the first Peek?  (repair of the
-    finding C07:table:exact-order; the model has both variants)"""
-    try:
-        src = open(os.path.join(vlib.REPO, "src/rime/gear/table_translator.cc")).read()
-    except OSError:
-        return False
-    return bool(re.search(r"more\.Sort\(\)", src)) and bool(re.search(r"iter\.Sort\(\)", src))
-
-
 def model_input(sch, cfg):
-    o = ["table"] + sch["table"] + ["endtable", "cfg %s %d %s %d" % (sch["kind"], 1 if cfg["completion"] else 0,
-                                                                    cfg["delims"].encode().hex() or "-", 1 if words_sorted_in_source() else 0)]
+    o = ["table"] + sch["table"] + ["endtable", "cfg %s %d %s" % (sch["kind"], 1 if cfg["completion"] else 0, cfg["delims"].encode().hex() or "-")]
     for inp in sch["inputs"]:
         if not inp["done"] or inp["g"] is None:
             continue
